@@ -1,6 +1,7 @@
 package main
 
 import (
+	crand "crypto/rand"
 	"math/rand"
 
 	"encoding/json"
@@ -71,7 +72,16 @@ func c19LongRun(n int) {
 	sample := make([]c19Pair, 0, n>>(64-shift)+n>>(66-shift)+1024)
 	var bad int64
 	single := n / 4 * 3
+	// the program around the library makes its own randomness reproducible: crypto/rand.Reader is replaced by a
+	// deterministic stream, and the same stream is installed again later (as test set-ups and simulations do).
+	// IDs of one run must still not repeat. Done in the single-goroutine phase only (the variable is the program's).
+	origReader := crand.Reader
 	for k := 0; k < single; k++ {
+		if k < exactN && k%50000 == 0 {
+			crand.Reader = &c19DetReader{x: 0x9e3779b97f4a7c15}
+		} else if k == exactN {
+			crand.Reader = origReader
+		}
 		id := uu.RandomID()
 		if id.Higher>>12&0xf != 4 || id.Lower>>62 != 2 {
 			bad++
@@ -83,6 +93,7 @@ func c19LongRun(n int) {
 			sample = append(sample, c19Pair{id.Higher, id.Lower})
 		}
 	}
+	crand.Reader = origReader
 	var wg sync.WaitGroup
 	var mu sync.Mutex
 	for g := 0; g < 4; g++ {
@@ -136,6 +147,19 @@ func c19LongRun(n int) {
 	res.Duplicates, res.FirstDuplicate, res.BadBits = d1+d2, f1+f2, bad
 	res.Distinct = int64(len(exact)+len(sample)) - d1 - d2
 	json.NewEncoder(os.Stdout).Encode(res)
+}
+
+// c19DetReader is a deterministic byte stream (xorshift64*).
+type c19DetReader struct{ x uint64 }
+
+func (d *c19DetReader) Read(p []byte) (int, error) {
+	for i := range p {
+		d.x ^= d.x >> 12
+		d.x ^= d.x << 25
+		d.x ^= d.x >> 27
+		p[i] = byte((d.x * 2685821657736338717) >> 56)
+	}
+	return len(p), nil
 }
 
 func c19Child(spec string) {
